@@ -465,3 +465,27 @@ def falsyexc(a, b):
     except ValueError:
         r += 100
     return r
+
+
+def withtry(a, b):
+    # two protected regions that start in one basic block: a try as the first statement of a with body,
+    # a with as the first statement of a try body, two context managers in one with
+    r = 0
+    with _Three() as c:
+        try:
+            r += c // a
+        except ZeroDivisionError:
+            if b > 0:
+                r += 10
+            r += 20
+    try:
+        with _Three() as d:
+            r += d // b
+    except ZeroDivisionError:
+        if a > 0:
+            r += 100
+        r += 200
+    with _Three() as e, _Three() as f:
+        if a < b:
+            r += e + f
+    return r
